@@ -192,7 +192,7 @@ func (e *Exec) strConst(s string) *Term {
 	if t, ok := e.strs[s]; ok {
 		return t
 	}
-	name := fmt.Sprintf("str!%d", len(e.strs))
+	name := fmt.Sprintf("strc!%d", len(e.strs))
 	e.emit("(declare-const %s Int)", name)
 	e.emit("(assert (= (slen %s) %d))", name, len(s))
 	if len(s) <= 1024 {
@@ -241,7 +241,7 @@ func (e *Exec) floatConst(s string) *Term {
 	if t, ok := e.floats[s]; ok {
 		return t
 	}
-	name := fmt.Sprintf("flt!%d", len(e.floats))
+	name := fmt.Sprintf("fltc!%d", len(e.floats))
 	e.emit("(declare-const %s Int)", name)
 	t := &Term{name, SInt}
 	e.floats[s] = t
